@@ -433,8 +433,8 @@ public:
     size_t nrA = A.getNumberOfRows();
     size_t nrB = B.getNumberOfRows();
     size_t ncB = B.getNumberOfColumns();
-    if (ncA > ncB) throw DimensionException("MatrixTools::operator+=(). A and B must have the same number of columns.", ncB, ncA);
-    if (nrA > nrB) throw DimensionException("MatrixTools::operator+=(). A and B must have the same number of rows.", nrB, nrA);
+    if (ncA != ncB) throw DimensionException("MatrixTools::operator+=(). A and B must have the same number of columns.", ncB, ncA);
+    if (nrA != nrB) throw DimensionException("MatrixTools::operator+=(). A and B must have the same number of rows.", nrB, nrA);
 
 
     for (size_t i = 0; i < nrA; i++)
